@@ -102,6 +102,9 @@ func c14ServerLists(names []string) [][]string {
 	return out
 }
 
+// a path prefix far longer than the others (a tenant id, a hashed asset directory)
+const c14LongPrefix = "/a/0123456789abcdef0123456789abcdef012345"
+
 func init() {
 	Register("C14", func(c *Ctx) {
 		c.Out.Rule = "small-scope exhaustive: every ordered list of <=3 (quick) / <=4 (thorough, one shape fixed) locations, each with any host subset of {a,b} and one of 5 prefix sets, names distinct or duplicated, x every ordered subset of the names (+ an unknown name) as the server's list x requests {a,b,c} x {/,/a,/a/b/c,/ab,/b,/c} through Locations.Get; result must be named by the server, match, and no named matching location may be of a more specific class; nil iff none; a subset runs through the full handler chain (reload of locations and the server list between cases): no match => 5xx and no origin contact, otherwise the origin of a best-class location is contacted"
@@ -206,7 +209,7 @@ func init() {
 			// the same oracle on locations built by the configuration path (location.Reset -> convertConfigs),
 			// with "/" among the prefixes and the request-URIs "*" and "/%61" (the URI is matched as sent)
 			st := c.Stat("converted-get", "enumeration")
-			prefixSets := [][]string{nil, {"/"}, {"/a"}, {"/a", "/"}, {"/a/"}, {"/", "/a/b"}, {"//a/b"}, {"/b"}} // (neighbouring sets whose elements concatenate to the same string)
+			prefixSets := [][]string{nil, {"/"}, {"/a"}, {"/a", "/"}, {"/a/"}, {"/", "/a/b"}, {"//a/b"}, {"/b"}, {c14LongPrefix}, {c14LongPrefix + "/" + c14LongPrefix[1:]}} // (neighbouring sets whose elements concatenate to the same string; prefixes of 41 and 82 bytes)
 			var cshapes []c14Loc
 			for _, hs := range append(append([][]string(nil), c14HostSets...), []string{"B.Com"}, []string{"a", "B.Com"}) {
 				for _, ps := range prefixSets {
@@ -219,8 +222,8 @@ func init() {
 			if c.Thorough() {
 				n = 3
 			}
-			st.Bounds = fmt.Sprintf("%d shapes (prefix sets with \"/\"), ordered lists of <=%d through location.Reset, all server lists, 3 hosts x 8 URIs", len(cshapes), n)
-			uris := append(append([]string(nil), c14URIs...), "*", "/%61/b")
+			st.Bounds = fmt.Sprintf("%d shapes (prefix sets with \"/\"), ordered lists of <=%d through location.Reset, all server lists, 3 hosts x 10 URIs (prefixes of 1..82 bytes)", len(cshapes), n)
+			uris := append(append([]string(nil), c14URIs...), "*", "/%61/b", c14LongPrefix+"/x", c14LongPrefix+"/"+c14LongPrefix[1:]+"/x")
 			names := []string{"L1", "L2", "L3"}
 			var idx int64
 			var rec func(cur []c14Loc)
